@@ -77,3 +77,13 @@ Example C03_premises_met_by_a_failing_frame :
                        {| xw := s_transfer ex_world ex_caller ex_A 7; xt := tracer_empty; xe := []; xn := O |} = Some (r, s') /\
     r_err r <> None /\ r_gas r = 0.
 Proof. exact ex_failing_frame. Qed.
+
+From Verif Require Import Model.SStore Proofs.SStore_proofs.
+(** one panic of the INHERITED instruction set that is not just assumed away: StateDB.SubRefund panics when the refund counter
+    would go below zero, and SSTORE's net-metering gas functions call it ("We can prove that refund counter will never go
+    below 0", gas_table.go).  For every schedule of the code base (legacy, EIP-1283, EIP-2200, EIP-2929 with either clearing
+    refund), every committed storage and every sequence of writes of a transaction, in the order the code applies them
+    (SubRefund before the reset clause's AddRefund): it never does *)
+Theorem C03_refund_counter_never_below_zero : forall sch orig ws, is_panic (run_writes sch orig ws orig 0) = false.
+Proof. exact refund_counter_never_below_zero. Qed.
+Print Assumptions C03_refund_counter_never_below_zero.
